@@ -13,6 +13,44 @@ theorem cmpInit_vals (d : Dialect) (op : POp) (c1 : MCls) (t1 : Ty) (n1 : Bool) 
   cases op <;> simp [isIs] at ho <;>
     simp [cmpInit, Monad.ty, hne1, hne2, hcomp, Monad.getsql, Monad.nullable] at h <;> exact h.symm
 
+def likeK (L : LikeFn) (d : Dialect) (ng : Bool) (pat : String) (esc : Bool) : Val → Option K
+  | .null => some .unk
+  | .str s => some (if ng then (K.ofBool (L.run d pat esc s)).not else K.ofBool (L.run d pat esc s))
+  | _ => none
+
+theorem evc_like (C : Cx) (ng : Bool) (sql : Sql) (pat : String) (esc : Bool) :
+    C.evc (.like ng sql pat esc) = (C.ev sql).bind (likeK C.L C.d ng pat esc) := by
+  simp only [Cx.evc, Cx.ev, evalCond, eval]
+  cases eval C.L C.d (senv C.d C.env) sql with
+  | none => rfl
+  | some v => cases v <;> simp [likeK]
+
+/-- `make_numeric_binop` with `coerce_monads` -/
+theorem ar_vals_ok (C : Cx) (op : ArOp) {t1 t2 : Ty} {s1 s2 : Sql} {v1 v2 : Option Scalar}
+    (h1 : C.ev s1 = some (encV C.d v1)) (h2 : C.ev s2 = some (encV C.d v2))
+    (ht1 : ∀ x, v1 = some x → hasTy t1 x) (ht2 : ∀ x, v2 = some x → hasTy t2 x)
+    (hs1 : t1 ≠ .str) (hs2 : t2 ≠ .str) (hbb : ¬ (t1 = .bool ∧ t2 = .bool)) :
+    (coerceNum C.d t1 t2 s1 s2).1 = .int ∧
+    C.ev (.ar op (coerceNum C.d t1 t2 s1 s2).2.1 (coerceNum C.d t1 t2 s1 s2).2.2) = some (encV C.d (pyBin op v1 v2)) ∧
+    (∀ x, pyBin op v1 v2 = some x → hasTy .int x) ∧ (v1 ≠ none → v2 ≠ none → pyBin op v1 v2 ≠ none) := by
+  simp only [Cx.ev] at h1 h2
+  cases t1 <;> cases t2 <;> simp at hs1 hs2 hbb <;>
+  rcases v1 with _ | x <;> rcases v2 with _ | y <;> (try cases x) <;> (try cases y) <;>
+  (try (have hx := ht1 _ rfl; simp [hasTy] at hx)) <;> (try (have hy := ht2 _ rfl; simp [hasTy] at hy)) <;>
+  cases hd : C.d.isPg <;>
+  simp [coerceNum, hd, Cx.ev, eval, h1, h2, encV, encS, arVals, pyBin, numOf, hasTy, boolInt]
+
+theorem sameKind_enc (d : Dialect) {t : Ty} {v1 v2 : Option Scalar}
+    (ht1 : ∀ x, v1 = some x → hasTy t x) (ht2 : ∀ x, v2 = some x → hasTy t x) : sameKind (encV d v1) (encV d v2) = true := by
+  cases t <;> rcases v1 with _ | x <;> rcases v2 with _ | y <;> (try cases x) <;> (try cases y) <;>
+  (try (have hx := ht1 _ rfl; simp [hasTy] at hx)) <;> (try (have hy := ht2 _ rfl; simp [hasTy] at hy)) <;>
+  cases hd : d.isPg <;> simp [encV, encS, sameKind, hd]
+
+theorem ev_case (C : Cx) (c t e : Sql) (k : K) (vt ve : Val) (hc : C.evc c = some k) (ht : C.ev t = some vt) (he : C.ev e = some ve)
+    (hk : sameKind vt ve = true) : C.ev (.case c t e) = some (if k == .tt then vt else ve) := by
+  simp only [Cx.ev, Cx.evc, evalCond] at *
+  simp only [eval, hc, ht, he, hk, if_true]
+
 theorem tr_ok (C : Cx) (hwt : WT C.sch C.env) (hL : LikeOK C.L C.d) : ∀ (e : Expr) (m : Monad),
     frag C.sch C.d e = true → tr C.sch C.d e = .ok m → Good C e m := by
   intro e
@@ -123,20 +161,80 @@ theorem tr_ok (C : Cx) (hwt : WT C.sch C.env) (hL : LikeOK C.L C.d) : ∀ (e : E
             have hcomp : ∀ o, comparable (MTy.ofTy t1) (MTy.ofTy t2) o = true ∨ isIs o = true := by
               intro o; cases t1 <;> cases t2 <;> cases o <;> simp_all [comparable, MTy.ofTy, sameClass, MTy.isNum, isIs]
             have hcv := fun o => cmp_vals_ok C o hev1 hev2 hty1 hty2 hcl
-            have hpy : ∀ o, op.cmp? = some o → (py C.env (.cmp op l r)).asK = (match v1, v2 with
-                | some a, some b => pyCmp o a b
-                | _, _ => .unk) := by
+            have hpy : ∀ o, op.cmp? = some o → (py C.env (.cmp op l r)).asK = pyCmpOpt o v1 v2 := by
               intro o ho'
               simp only [py, hrn', hln', Bool.false_eq_true, if_false, hpy1, hpy2, PyR.asV, ho']
-              cases v1 <;> cases v2 <;> simp [PyR.asK]
+              cases v1 <;> cases v2 <;> simp [PyR.asK, pyCmpOpt]
             have hm := cmpInit_vals C.d op c1 t1 n1 s1 c2 t2 n2 s2 m ho ((hcomp op).resolve_right (by simp [ho])) htr
             subst hm
             refine ⟨?_, by simp [valueSorted, Monad.isCond]⟩
             simp only [MonadOK, Monad.getsql]
             cases op <;> simp [isIs] at ho <;> simp only [cmpSql] <;>
               exact ⟨_, hcv _, by rw [hpy _ rfl]; exact R.refl _, fun _ => by rw [hpy _ rfl]⟩
-  | inList ng x items ih => sorry
-  | like k ng pat x ih => sorry
+  | inList ng x items ih =>
+    intro m hf htr
+    simp only [frag, Bool.and_eq_true] at hf
+    obtain ⟨⟨hsx, hfx⟩, hit⟩ := hf
+    simp only [tr] at htr
+    cases hx : tr C.sch C.d x with
+    | error _ => simp [hx] at htr
+    | ok mx =>
+      obtain ⟨c, t, n, s, rfl, _, v, hpy, hty, hev, hnn⟩ := (ih mx hfx hx).val hsx
+      simp only [hx] at htr
+      rw [trTy_of_ok hx] at hit; simp only [Monad.ty] at hit
+      have hit' : ∀ it ∈ items, MTy.ofTy t = litTy it := by simpa [List.all_eq_true] using hit
+      have hcomp : items.all (fun it => comparable (MTy.ofTy t) (litTy it) .eq) = true := by
+        simp only [List.all_eq_true]; intro it hi; rw [← hit' it hi]; cases t <;> rfl
+      simp only [Monad.ty, hcomp, if_true, Monad.getsql, Monad.nullable] at htr
+      injection htr with htr; subst htr
+      refine ⟨?_, by simp [valueSorted, Monad.isCond]⟩
+      simp only [MonadOK, Monad.getsql]
+      have hp : (py C.env (.inList ng x items)).asK = (if ng then (pyInList v items).not else pyInList v items) := by
+        simp [py, hpy, PyR.asV, PyR.asK]
+      exact ⟨_, inList_ok C ng hev hty items hit', by rw [hp]; exact R.refl _, fun _ => by rw [hp]⟩
+  | like k ng pat x ih =>
+    intro m hf htr
+    simp only [frag, Bool.and_eq_true] at hf
+    obtain ⟨⟨⟨hsx, hfx⟩, hng⟩, hpat⟩ := hf
+    simp only [tr] at htr
+    cases hx : tr C.sch C.d x with
+    | error _ => simp [hx] at htr
+    | ok mx =>
+      obtain ⟨c, t, n, s, rfl, hca, v, hpy, hty, hev, hnn⟩ := (ih mx hfx hx).val hsx
+      simp only [hx] at htr
+      cases t with
+      | int => simp at htr
+      | bool => simp at htr
+      | str =>
+        simp only at htr; injection htr with htr; subst htr
+        refine ⟨?_, by simp [valueSorted, Monad.isCond]⟩
+        simp only [MonadOK, Monad.getsql]
+        rcases v with _ | xv
+        · -- missing: only for `in` / startswith / endswith (not for `not in`)
+          have hngf : ng = false := by
+            cases ng with
+            | false => rfl
+            | true => exact absurd rfl (hnn (Or.inr (by simpa using hng)))
+          subst hngf
+          refine ⟨.unk, ?_, ?_, fun _ => ?_⟩
+          · simp [evc_like, hev, likeK]
+          · simp [py, hpy, PyR.asV, PyR.asK]; exact R.refl _
+          · simp [py, hpy, PyR.asV, PyR.asK]
+        · obtain ⟨sv, rfl⟩ := hasTy_str (hty xv rfl)
+          have hl := hL k pat sv hpat
+          have hev' : C.ev s = some (.str sv) := by simpa [encV, encS] using hev
+          have hp : (py C.env (.like k ng pat x)).asK = (if ng then (K.ofBool (pyLike k pat sv)).not else K.ofBool (pyLike k pat sv)) := by
+            simp [py, hpy, PyR.asV, PyR.asK]
+          refine ⟨_, ?_, by rw [hp]; exact R.refl _, fun _ => by rw [hp]⟩
+          cases ng with
+          | false => simp [evc_like, hev', likeK, hl]
+          | true =>
+            cases n with
+            | false => simp [evc_like, hev', likeK, hl]
+            | true =>
+              by_cases hc : c = .attr
+              · simp [hc, evc_or_pair, evc_like, hev', likeK, hl, evc_isNull C _ _ hev']
+              · simp [hc, evc_like, ev_coalesce_lit C _ _ _ hev', sameKind, litVal, likeK, hl]
   | and l r ihl ihr =>
     intro m hf htr
     simp only [frag, Bool.and_eq_true] at hf
@@ -213,10 +311,191 @@ theorem tr_ok (C : Cx) (hwt : WT C.sch C.env) (hL : LikeOK C.L C.d) : ∀ (e : E
         rw [MonadOK_of_isCond hsh]
         refine ⟨s1.not, by rw [hn, e1]; rfl, ?_, fun _ => by simp [py, PyR.asK, x1 hex]⟩
         simpa [py, PyR.asK, x1 hex] using R.refl _
-  | bin op l r ihl ihr => sorry
-  | neg x ih => sorry
-  | abs x ih => sorry
-  | len x ih => sorry
-  | ite c t e ihc iht ihe => sorry
+  | bin op l r ihl ihr =>
+    intro m hf htr
+    simp only [frag, Bool.and_eq_true] at hf
+    obtain ⟨⟨⟨⟨hsl, hsr⟩, hfl⟩, hfr⟩, hbb⟩ := hf
+    simp only [tr] at htr
+    cases hl : tr C.sch C.d l with
+    | error x => simp [hl] at htr
+    | ok ml =>
+      cases hr : tr C.sch C.d r with
+      | error x => simp [hl, hr] at htr
+      | ok mr =>
+        obtain ⟨c1, t1, n1, s1, rfl, _, v1, hpy1, hty1, hev1, hnn1⟩ := (ihl ml hfl hl).val hsl
+        obtain ⟨c2, t2, n2, s2, rfl, _, v2, hpy2, hty2, hev2, hnn2⟩ := (ihr mr hfr hr).val hsr
+        simp only [hl, hr] at htr
+        rw [trTy_of_ok hl, trTy_of_ok hr] at hbb
+        simp only [Monad.ty] at hbb
+        have hnnb : nn C.sch (.bin op l r) = true → v1 ≠ none ∧ v2 ≠ none := by
+          intro h; simp only [nn, Bool.and_eq_true] at h; exact ⟨hnn1 (Or.inr h.1), hnn2 (Or.inr h.2)⟩
+        cases t1 with
+        | str =>
+          cases op <;> cases t2 <;> simp at htr
+          subst htr
+          refine ⟨?_, by simp [valueSorted, isAttr]⟩
+          refine ⟨pyBin .add v1 v2, by simp [py, hpy1, hpy2, PyR.asV], ?_, ?_, ?_⟩
+          · rcases v1 with _ | x <;> rcases v2 with _ | y <;> (try cases x) <;> (try cases y) <;>
+              (try (have hx := hty1 _ rfl; simp [hasTy] at hx)) <;> (try (have hy := hty2 _ rfl; simp [hasTy] at hy)) <;>
+              simp [pyBin, hasTy]
+          · simp only [Cx.ev] at hev1 hev2
+            rcases v1 with _ | x <;> rcases v2 with _ | y <;> (try cases x) <;> (try cases y) <;>
+              (try (have hx := hty1 _ rfl; simp [hasTy] at hx)) <;> (try (have hy := hty2 _ rfl; simp [hasTy] at hy)) <;>
+              simp [Cx.ev, eval, hev1, hev2, encV, encS, pyBin]
+          · intro h
+            have hh : v1 ≠ none ∧ v2 ≠ none := by
+              rcases h with h | h
+              · simp only [Bool.or_eq_false_iff] at h; exact ⟨hnn1 (Or.inl h.1), hnn2 (Or.inl h.2)⟩
+              · exact hnnb h
+            rcases v1 with _ | x <;> rcases v2 with _ | y <;> (try cases x) <;> (try cases y) <;>
+              (try (have hx := hty1 _ rfl; simp [hasTy] at hx)) <;> (try (have hy := hty2 _ rfl; simp [hasTy] at hy)) <;>
+              simp_all [pyBin]
+        | int =>
+          cases t2 with
+          | str => simp [Monad.ty, MTy.ofTy] at htr
+          | int =>
+            obtain ⟨a1, a2, a3, a4⟩ := ar_vals_ok C op hev1 hev2 hty1 hty2 (by simp) (by simp) (by simp)
+            simp only [Monad.ty, MTy.ofTy, Monad.getsql] at htr
+            injection htr with htr; subst htr
+            rw [a1]
+            exact ⟨⟨pyBin op v1 v2, by simp [py, hpy1, hpy2, PyR.asV], a3, a2, fun h => by
+              rcases h with h | h
+              · simp at h
+              · exact a4 (hnnb h).1 (hnnb h).2⟩, by simp [valueSorted, isAttr]⟩
+          | bool =>
+            obtain ⟨a1, a2, a3, a4⟩ := ar_vals_ok C op hev1 hev2 hty1 hty2 (by simp) (by simp) (by simp)
+            simp only [Monad.ty, MTy.ofTy, Monad.getsql] at htr
+            injection htr with htr; subst htr
+            rw [a1]
+            exact ⟨⟨pyBin op v1 v2, by simp [py, hpy1, hpy2, PyR.asV], a3, a2, fun h => by
+              rcases h with h | h
+              · simp at h
+              · exact a4 (hnnb h).1 (hnnb h).2⟩, by simp [valueSorted, isAttr]⟩
+        | bool =>
+          cases t2 with
+          | str => simp [Monad.ty, MTy.ofTy] at htr
+          | int =>
+            obtain ⟨a1, a2, a3, a4⟩ := ar_vals_ok C op hev1 hev2 hty1 hty2 (by simp) (by simp) (by simp)
+            simp only [Monad.ty, MTy.ofTy, Monad.getsql] at htr
+            injection htr with htr; subst htr
+            rw [a1]
+            exact ⟨⟨pyBin op v1 v2, by simp [py, hpy1, hpy2, PyR.asV], a3, a2, fun h => by
+              rcases h with h | h
+              · simp at h
+              · exact a4 (hnnb h).1 (hnnb h).2⟩, by simp [valueSorted, isAttr]⟩
+          | bool => simp [MTy.ofTy] at hbb
+  | neg x ih =>
+    intro m hf htr
+    simp only [frag, Bool.and_eq_true, beq_iff_eq] at hf
+    obtain ⟨⟨hsx, hfx⟩, hty'⟩ := hf
+    simp only [tr] at htr
+    cases hx : tr C.sch C.d x with
+    | error _ => simp [hx] at htr
+    | ok mx =>
+      obtain ⟨c, t, n, s, rfl, _, v, hpy, hty, hev, hnn⟩ := (ih mx hfx hx).val hsx
+      rw [trTy_of_ok hx] at hty'
+      have ht : t = .int := by cases t <;> simp_all [Monad.ty, MTy.ofTy]
+      subst ht
+      simp only [hx] at htr; injection htr with htr; subst htr
+      refine ⟨?_, by simp [valueSorted, isAttr]⟩
+      simp only [Cx.ev] at hev
+      rcases v with _ | xv
+      · refine ⟨none, by simp [py, hpy, PyR.asV], by simp, by simp [Cx.ev, eval, hev], fun h => ?_⟩
+        exact absurd rfl (hnn (by simpa [nn] using h))
+      · obtain ⟨i, rfl⟩ := hasTy_int (hty xv rfl)
+        exact ⟨some (.int (-i)), by simp [py, hpy, PyR.asV, numOf], by intro x hx'; injection hx' with hx'; subst hx'; simp [hasTy],
+          by simp [Cx.ev, eval, hev, encV, encS], by simp⟩
+  | abs x ih =>
+    intro m hf htr
+    simp only [frag, Bool.and_eq_true, beq_iff_eq] at hf
+    obtain ⟨⟨hsx, hfx⟩, hty'⟩ := hf
+    simp only [tr] at htr
+    cases hx : tr C.sch C.d x with
+    | error _ => simp [hx] at htr
+    | ok mx =>
+      obtain ⟨c, t, n, s, rfl, _, v, hpy, hty, hev, hnn⟩ := (ih mx hfx hx).val hsx
+      rw [trTy_of_ok hx] at hty'
+      have ht : t = .int := by cases t <;> simp_all [Monad.ty, MTy.ofTy]
+      subst ht
+      simp only [hx] at htr; injection htr with htr; subst htr
+      refine ⟨?_, by simp [valueSorted, isAttr]⟩
+      simp only [Cx.ev] at hev
+      rcases v with _ | xv
+      · refine ⟨none, by simp [py, hpy, PyR.asV], by simp, by simp [Cx.ev, eval, hev], fun h => ?_⟩
+        exact absurd rfl (hnn (by simpa [nn] using h))
+      · obtain ⟨i, rfl⟩ := hasTy_int (hty xv rfl)
+        exact ⟨some (.int (Int.ofNat i.natAbs)), by simp [py, hpy, PyR.asV, numOf], by intro x hx'; injection hx' with hx'; subst hx'; simp [hasTy],
+          by simp [Cx.ev, eval, hev, encV, encS], by simp⟩
+  | len x ih =>
+    intro m hf htr
+    simp only [frag, Bool.and_eq_true] at hf
+    obtain ⟨hsx, hfx⟩ := hf
+    simp only [tr] at htr
+    cases hx : tr C.sch C.d x with
+    | error _ => simp [hx] at htr
+    | ok mx =>
+      obtain ⟨c, t, n, s, rfl, _, v, hpy, hty, hev, hnn⟩ := (ih mx hfx hx).val hsx
+      simp only [hx] at htr
+      cases t with
+      | int => simp at htr
+      | bool => simp at htr
+      | str =>
+        simp only at htr; injection htr with htr; subst htr
+        refine ⟨?_, by simp [valueSorted, isAttr]⟩
+        simp only [Cx.ev] at hev
+        rcases v with _ | xv
+        · refine ⟨none, by simp [py, hpy, PyR.asV], by simp, by simp [Cx.ev, eval, hev], fun h => ?_⟩
+          exact absurd rfl (hnn (Or.inr (by simpa [nn] using h)))
+        · obtain ⟨i, rfl⟩ := hasTy_str (hty xv rfl)
+          exact ⟨some (.int i.length), by simp [py, hpy, PyR.asV], by intro x hx'; injection hx' with hx'; subst hx'; simp [hasTy],
+            by simp [Cx.ev, eval, hev, encV, encS], by simp⟩
+  | ite c t e ihc iht ihe =>
+    intro m hf htr
+    simp only [frag, Bool.and_eq_true, beq_iff_eq] at hf
+    obtain ⟨⟨⟨⟨⟨hfc, hft⟩, hfe⟩, hst⟩, hse⟩, htte⟩ := hf
+    simp only [tr] at htr
+    cases hc : tr C.sch C.d c with
+    | error _ => simp [hc] at htr
+    | ok mc =>
+      cases ht : tr C.sch C.d t with
+      | error _ => simp [hc, ht] at htr
+      | ok mt =>
+        cases he : tr C.sch C.d e with
+        | error _ => simp [hc, ht, he] at htr
+        | ok me =>
+          obtain ⟨ct, tt, nt, st, rfl, _, vt, hpyt, htyt, hevt, hnnt⟩ := (iht mt hft ht).val hst
+          obtain ⟨ce, te, ne, se, rfl, _, ve, hpye, htye, heve, hnne⟩ := (ihe me hfe he).val hse
+          rw [trTy_of_ok ht, trTy_of_ok he] at htte
+          have hte : tt = te := by cases tt <;> cases te <;> simp_all [Monad.ty, MTy.ofTy]
+          subst hte
+          obtain ⟨⟨k, hk, rk, _⟩, hnone⟩ := (ihc mc hfc hc).condOf
+          simp only [hc, ht, he] at htr
+          have hres : m = .val .expr tt ((condOf C.d mc).nullable || nt || ne) (.case (condOf C.d mc).getsql st se) := by
+            cases mc with
+            | val cc tc nc sc => cases tc <;> cases tt <;> simp_all [Monad.ty, MTy.ofTy, Monad.getsql, Monad.nullable]
+            | noneM => exact absurd rfl hnone
+            | cmp _ _ _ _ => cases tt <;> simp_all [Monad.ty, MTy.ofTy, Monad.getsql, Monad.nullable]
+            | bexpr _ _ => cases tt <;> simp_all [Monad.ty, MTy.ofTy, Monad.getsql, Monad.nullable]
+            | land _ _ => cases tt <;> simp_all [Monad.ty, MTy.ofTy, Monad.getsql, Monad.nullable]
+            | lor _ _ => cases tt <;> simp_all [Monad.ty, MTy.ofTy, Monad.getsql, Monad.nullable]
+            | lnot _ => cases tt <;> simp_all [Monad.ty, MTy.ofTy, Monad.getsql, Monad.nullable]
+          subst hres
+          refine ⟨?_, by simp [valueSorted, isAttr]⟩
+          have hkk : (k == K.tt) = ((py C.env c).asK == K.tt) := by
+            rw [Bool.eq_iff_iff]; simp only [beq_iff_eq]; exact rk.1
+          refine ⟨if (py C.env c).asK == .tt then vt else ve, ?_, ?_, ?_, ?_⟩
+          · simp only [py, hpyt, hpye]; split <;> rfl
+          · intro x hx; split at hx
+            · exact htyt x hx
+            · exact htye x hx
+          · rw [ev_case C _ _ _ k _ _ hk hevt heve (sameKind_enc C.d htyt htye), hkk]; split <;> rfl
+          · intro h
+            have hh : vt ≠ none ∧ ve ≠ none := by
+              rcases h with h | h
+              · simp only [Bool.or_eq_false_iff] at h; exact ⟨hnnt (Or.inl h.1.2), hnne (Or.inl h.2)⟩
+              · simp only [nn, Bool.and_eq_true] at h; exact ⟨hnnt (Or.inr h.1), hnne (Or.inr h.2)⟩
+            split
+            · exact hh.1
+            · exact hh.2
 
 end PonyVerif.Model.Q
